@@ -129,32 +129,24 @@ Qed.
 
 (* ---------- the language's Type() against the creation-time type ---------- *)
 Lemma arr_type_some x r t :
-  arr_type x r = TSome t -> exists tx, r = TSome tx /\ t = TNamed (NSlice (regname tx)).
+  arr_fallback x r = false -> arr_type x r = TSome t ->
+  exists tx, r = TSome tx /\ t = TNamed (NSlice (regname tx)).
 Proof.
-  unfold arr_type. intros H.
-  assert (G : match r with
-              | TSome t0 => match t0 with
-                            | TNamed n => TSome (TNamed (NSlice n))
-                            | TStructG s g => match g with GBare _ => TCrash | _ => TSome (TNamed (NSlice (NStruct s))) end
-                            end
-              | TNone => TNone | TCrash => TCrash end = TSome t).
-  { destruct x; try exact H; discriminate H. }
-  clear H. destruct r as [| |t0]; try discriminate.
-  exists t0; split; auto.
-  destruct t0 as [n|s g]; [inversion G; auto|].
-  destruct g; try discriminate; inversion G; auto.
+  unfold arr_type. intros F H. rewrite F in H.
+  destruct r as [| |t0]; try discriminate. exists t0; split; auto. inversion H; auto.
 Qed.
 
-Lemma type_of_spec st : forall v t, type_of st v = TSome t ->
+Lemma type_of_spec st : forall v t, no_fallback st v = true -> type_of st v = TSome t ->
   exists t', spec_type_of st v = Some t' /\ regname t' = regname t /\ ((forall id, v <> VInst id) -> t' = t).
 Proof.
-  induction v as [|n|n|n|b| | | |l HF|id|id|n] using value_ind'; intros t HT; simpl in HT; try discriminate;
+  induction v as [|n|n|n|b| | | |l HF|id|id|n] using value_ind'; intros t NF HT; simpl in HT; try discriminate;
     try (inversion HT; subst; eexists; split; [reflexivity | split; [reflexivity | auto]]; fail).
   - (* arrays *)
     destruct l as [|x r].
     + inversion HT; subst. exists (TNamed NEmpty); simpl; auto.
-    + apply arr_type_some in HT as [tx [Hx Ht]]. inversion HF as [|? ? Px Pr]; subst.
-      destruct (Px _ Hx) as [t' [S1 [S2 _]]].
+    + simpl in NF. apply andb_prop in NF as [NF1 NF2]. apply negb_true_iff in NF1.
+      apply (arr_type_some _ _ _ NF1) in HT as [tx [Hx Ht]]. inversion HF as [|? ? Px Pr]; subst.
+      destruct (Px _ NF2 Hx) as [t' [S1 [S2 _]]].
       exists (TNamed (NSlice (regname t'))). simpl. rewrite S1. rewrite S2. auto.
   - (* instance *)
     simpl. destruct (alookup id (st_store st)) as [i|]; try discriminate.
@@ -166,14 +158,18 @@ Proof.
     inversion HT; subst. eexists; split; [reflexivity | split; [reflexivity | auto]].
 Qed.
 
-Lemma type_of_empty st v : type_of st v = TSome (TNamed NEmpty) -> v = VArr [].
+Lemma type_of_empty st v : no_fallback st v = true -> type_of st v = TSome (TNamed NEmpty) -> v = VArr [].
 Proof.
-  destruct v; simpl; intros H; try discriminate.
-  - destruct l as [|x r]; auto. apply arr_type_some in H as [tx [_ Ht]]. discriminate.
+  destruct v; simpl; intros NF H; try discriminate.
+  - destruct l as [|x r]; auto. apply andb_prop in NF as [NF1 _]. apply negb_true_iff in NF1.
+    apply (arr_type_some _ _ _ NF1) in H as [tx [_ Ht]]. discriminate.
   - destruct (alookup id (st_store st)) as [i|]; try discriminate.
     destruct (alookup (i_tname i) (st_reg st)); discriminate.
   - destruct (alookup id (st_store st)); discriminate.
 Qed.
+
+Lemma value_clean_no_fallback st v : value_clean st v = true -> no_fallback st v = true.
+Proof. destruct v; simpl; auto. Qed.
 
 Lemma tname_eqb_refl : forall a, tname_eqb a a = true.
 Proof. induction a; simpl; auto using Nat.eqb_refl. destruct b; auto. Qed.
@@ -200,7 +196,7 @@ Proof.
       match goal with l0 : list value |- _ => destruct l0; discriminate end.
   - destruct (ty_eqb ot dt) eqn:E1.
     + apply ty_eqb_eq in E1; subst ot.
-      destruct (type_of_spec st v dt T) as [t' [S1 [S2 S3]]].
+      destruct (type_of_spec st v dt (value_clean_no_fallback _ _ C) T) as [t' [S1 [S2 S3]]].
       destruct v as [|n|n|n|b| | | |l|id|id|n]; simpl in T; try discriminate T;
         try (rewrite spec_conforms_unfold by discriminate; rewrite S1;
              rewrite (S3 ltac:(intros; discriminate)); apply ty_eqb_refl).
@@ -216,7 +212,7 @@ Proof.
         inversion T; subst. apply gen_eqb_eq in C. rewrite C. apply ty_eqb_refl.
     + destruct (ty_eqb ot (TNamed NEmpty)) eqn:E2; simpl in H; try discriminate.
       destruct (is_slice_name (regname dt)) eqn:E3; try discriminate.
-      apply ty_eqb_eq in E2; subst ot. apply type_of_empty in T; subst v. simpl. auto.
+      apply ty_eqb_eq in E2; subst ot. apply type_of_empty in T; [subst v; simpl; auto | apply value_clean_no_fallback; auto].
 Qed.
 
 (* ---------- every instance keeps its type name and the generation of its definition ---------- *)
